@@ -468,7 +468,8 @@ class EventBus:
             else:
                 event_key = event_pattern.__name__  # pyright: ignore[reportUnknownMemberType, reportUnknownVariableType]
         else:
-            event_key = str(event_pattern)
+            # the string's own value: str() of a str subclass can differ from it (a `class Names(str, Enum)` member prints as 'Names.X')
+            event_key = str.__str__(event_pattern)
 
         # Ensure event_key is definitely a string at this point
         assert isinstance(event_key, str)
@@ -687,7 +688,7 @@ class EventBus:
         finally:
             # Clean up handler
             # same key derivation as on(): a class that declares its own event_type default is registered under it
-            event_key: str = str(event_type)
+            event_key: str = str.__str__(event_type) if isinstance(event_type, str) else str(event_type)
             if isinstance(event_type, type):
                 declared_event_type = event_type.model_fields['event_type'].default
                 if isinstance(declared_event_type, str) and declared_event_type != 'UndefinedEvent':
